@@ -207,6 +207,60 @@ def run(ctx):
             res.count(mode)
             res.count("crlf" if lay.crlf else "lf")
 
+    rep_n = [0]
+
+    def repeated_file(doc, label):
+        """a file named twice with another file in between (a common part read again after a user file): the text is that of the
+        three files in order - the same as when the third argument is a copy of the first file under another name; the second
+        mention may spell the path differently (./, relative, Path, a symbolic link)"""
+        if len(doc) < 2:
+            return
+        rep_n[0] += 1
+        d = os.path.join(tmp, f"rep{rep_n[0]}")
+        os.makedirs(d, exist_ok=True)
+        k = rng.randint(1, len(doc) - 1)
+        lay = gen.Layout(rng)
+        fa, fb, fcopy = os.path.join(d, "common.dec"), os.path.join(d, "user.dec"), os.path.join(d, "copy_of_common.dec")
+        ta, tb = lay.render(doc[:k], end_line=rng.random() < 0.5), lay.render(doc[k:], end_line=rng.random() < 0.5)
+        for pth, t in ((fa, ta), (fb, tb), (fcopy, ta)):
+            with open(pth, "w", encoding="utf-8", newline="") as f:
+                f.write(t)
+        how = rng.choice(["same", "dot", "relative", "Path", "symlink"])
+        again = fa
+        if how == "dot":
+            again = os.path.join(d, ".", "common.dec")
+        elif how == "relative":
+            again = os.path.relpath(fa)
+        elif how == "Path":
+            again = pathlib.Path(fa)
+        elif how == "symlink":
+            again = os.path.join(d, "link_to_common.dec")
+            try:
+                os.symlink(fa, again)
+            except OSError:
+                again = fa
+        case = {"kind": "files", "label": label, "packaging": "a file named twice with another in between", "second_mention": how,
+                "files": [ta[:1200], tb[:1200]]}
+
+        def snap(paths):
+            try:
+                q = DecFileParser(*paths)
+                text = q._dec_file
+                q.parse()
+                return [text, light_snapshot(q)]
+            except Exception as e:
+                return "error: " + err_class(e)
+
+        got, want = snap([fa, fb, again]), snap([fa, fb, fcopy])
+        res.case()
+        res.count("file_named_twice")
+        if canon_json(got) != canon_json(want):
+            res.violation("a file named twice (with another file in between) is not read as the three files in order", case,
+                          impl=got if isinstance(got, str) else got[0][:600], model=want if isinstance(want, str) else want[0][:600],
+                          clause="identical answers: files passed in order")
+        if not isinstance(got, str):
+            tie_files([fa, fb, fa], got[0], case)
+
     for fname, c in load_corpus("C02"):
         one(c["doc"], "corpus")
     # fixed findings F3 (byte order mark) and F13 (a wrapped line starting with a word like 'Endpoint'), deterministically
@@ -232,6 +286,8 @@ def run(ctx):
     for i in range(n_docs):
         doc, info = gen.gen_doc(rng, cc=rng.random() < 0.5, copies=rng.random() < 0.4)
         one(doc, f"g{i}", heavy=acyclic(doc))
+        if i % 3 == 0:
+            repeated_file(doc, f"g{i}")
     files = sorted(glob.glob(REPO + "/tests/data/*.dec"))
     files += sorted(glob.glob(REPO + "/tests/data/models/*.dec")) if tier == "thorough" else sorted(glob.glob(REPO + "/tests/data/models/*.dec"))[seed % 9::9]
     if tier == "thorough":
